@@ -18,6 +18,10 @@ property theorems are proved about (`Pandora.Model.C03`).
   failed `Next()` (model: `tokOk` consumes one token, `tokEnd` = no token).
 * `scheduleSource_eq`, `newInstance_schedule` — rps-per-instance: every instance calls the schedule factory once
   (model: `start i` gives instance `i` a full profile `own[i] := tokens`); otherwise one shared object (`shared`).
+* `sched_accesses` — the leaf profile's `Next()` performs exactly ONE operation on the schedule's shared state (the
+  atomic `i.Inc`) and `Left()` exactly one (the atomic `i.Load`): each call takes effect at a single atomic step, which
+  is what `Model.C03Fine` assumes (`inc`, `load`) and `Proofs.C03Fine.fine_refines` turns into the atomic `tokOk` /
+  `tokEnd` / `chk` of the coarse model.  A second access (an increment that is given back, a re-read) breaks it.
 * `queueAcquire_eq`, `queueRelease_eq` — `AmmoQueue.Acquire` is one receive from the queue channel (an item, or
   "closed and drained"), `Release` only returns the object to the pool (model: `acq` / `empty`, `rel`).
 -/
@@ -59,5 +63,9 @@ theorem queueRelease_eq : Gen.InstLoop.queueRelease = ["p.InputPool.Put(a)"] := 
 `Next()` has none (the full translation of `Wait` is C04's: `Pandora.Bridge.Waiter.Wait_eq`) -/
 theorem wait_draws_one_token :
     Gen.InstLoop.waitNextCalls = 1 ∧ Gen.InstLoop.waitFailsWithoutToken = true := ⟨rfl, rfl⟩
+
+/-- the leaf profile's `Next` / `Left` touch the shared counter exactly once, atomically -/
+theorem sched_accesses :
+    Gen.InstLoop.schedNextAccesses = ["i.Inc"] ∧ Gen.InstLoop.schedLeftAccesses = ["i.Load"] := ⟨rfl, rfl⟩
 
 end Pandora.Bridge.InstLoop
